@@ -25,21 +25,24 @@ type c16Cfg struct {
 	Dev   bool
 	Cache bool // recording custom cache instead of the default one
 	Exts  []string
+	Alt   bool // alternative start: /a.html.jet exists instead of /a.jet, and the file menu has /a.html.jet instead of /a
 }
 
 var c16Cfgs = []c16Cfg{
-	{"default", false, false, nil},
-	{"customcache", false, true, nil},
-	{"dev", true, false, nil},
-	{"dev-customcache", true, true, nil},
-	{"ext-jet-then-bare", false, true, []string{".jet", ""}},
-	{"ext-bare-only", false, false, []string{""}},
-	{"ext-jet-only", false, true, []string{".jet"}},
-	{"ext-html-jet", false, false, []string{".html", ".jet"}},
-	{"dev-ext-jet-then-bare", true, true, []string{".jet", ""}},
-	{"ext-bare-only-customcache", false, true, []string{""}},
-	{"dev-ext-jet-only", true, false, []string{".jet"}},
-	{"ext-jet-only-defaultcache", false, false, []string{".jet"}},
+	{"default", false, false, nil, false},
+	{"customcache", false, true, nil, false},
+	{"dev", true, false, nil, false},
+	{"dev-customcache", true, true, nil, false},
+	{"ext-jet-then-bare", false, true, []string{".jet", ""}, false},
+	{"ext-bare-only", false, false, []string{""}, false},
+	{"ext-jet-only", false, true, []string{".jet"}, false},
+	{"ext-html-jet", false, false, []string{".html", ".jet"}, false},
+	{"dev-ext-jet-then-bare", true, true, []string{".jet", ""}, false},
+	{"ext-bare-only-customcache", false, true, []string{""}, false},
+	{"dev-ext-jet-only", true, false, []string{".jet"}, false},
+	{"ext-jet-only-defaultcache", false, false, []string{".jet"}, false},
+	{"late-extension-start", false, false, nil, true},
+	{"late-extension-start-customcache", false, true, nil, true},
 }
 
 func (c c16Cfg) exts() []string {
@@ -59,13 +62,17 @@ func (o c16Op) String() string { return o.Kind + "(" + o.Path + "," + o.Arg + ")
 
 var c16Files = []string{"/a", "/a.jet", "/b.jet", "/base.jet"}
 
-func c16Ops() []c16Op {
+func c16Ops(cfg c16Cfg) []c16Op {
+	files := c16Files
+	if cfg.Alt {
+		files = []string{"/a.html.jet", "/a.jet", "/b.jet", "/base.jet"}
+	}
 	ops := []c16Op{
 		{"get", "/a", ""}, {"get", "/a.jet", ""}, {"get", "/b", ""},
 		{"parse", "/p.jet", "plain"}, {"parse", "/p.jet", "extends"}, {"parse", "/p.jet", "include"},
 		{"exec", "/inc", ""},
 	}
-	for _, f := range c16Files {
+	for _, f := range files {
 		for _, v := range []string{"v1", "v2", "bad", "ext"} {
 			if f == "/base.jet" && v == "ext" {
 				continue
@@ -478,7 +485,11 @@ func c16Replay(cfg c16Cfg, hist []c16Op) (*c16Model, *c16Case) {
 	}
 	im := c16NewImpl(cfg)
 	im.ld.files["/inc.jet"] = `inc:{{include "/b"}}`
-	for _, op := range []c16Op{{"set", "/a.jet", "v1"}, {"set", "/b.jet", "v1"}, {"set", "/base.jet", "v1"}} {
+	first := "/a.jet"
+	if cfg.Alt {
+		first = "/a.html.jet" // GetTemplate("/a") finds its file under a late extension; "/a.jet" may appear afterwards
+	}
+	for _, op := range []c16Op{{"set", first, "v1"}, {"set", "/b.jet", "v1"}, {"set", "/base.jet", "v1"}} {
 		for _, m := range ms {
 			m.step(op)
 		}
@@ -603,20 +614,21 @@ func sameTrace(want, got []string, cfg c16Cfg) bool {
 }
 
 func C16(r *core.Run) map[string]interface{} {
-	ops := c16Ops()
+	ops := c16Ops(c16Cfgs[0])
 	cfgs := c16Cfgs
 	depthAll, depthBFS := 2, 4
 	if r.Thorough() {
 		depthAll, depthBFS = 3, 6
 	} else {
-		cfgs = c16Cfgs[:8]
+		cfgs = append(append([]c16Cfg{}, c16Cfgs[:8]...), c16Cfgs[12])
 	}
-	r.Rule = fmt.Sprintf("per configuration (development mode x custom cache x extension list): (1) every history of <= %d operations over a %d-operation menu (GetTemplate of 3 names, Parse plain/extends/include, Execute with a run-time include, loader Set of 4 files x 4 contents, Delete, Open/Read fault toggles) with no state merging, (2) breadth-first search to depth %d over canonical model states (file contents, faults, cache entries with template identities renamed by first occurrence); every transition is replayed on a fresh real Set (shortest path + 1 op) and compared with the reference cache machine: success, rendered content, exact Exists/Open/Get/Put trace, pointer identity", depthAll, len(ops), depthBFS)
+	r.Rule = fmt.Sprintf("per configuration (development mode x custom cache x extension list x start: /a.jet present, or only /a.html.jet present so that a file with an earlier extension can appear later): (1) every history of <= %d operations over a %d-operation menu (GetTemplate of 3 names, Parse plain/extends/include, Execute with a run-time include, loader Set of 4 files x 4 contents, Delete, Open/Read fault toggles) with no state merging, (2) breadth-first search to depth %d over canonical model states (file contents, faults, cache entries with template identities renamed by first occurrence); every transition is replayed on a fresh real Set (shortest path + 1 op) and compared with the reference cache machine: success, rendered content, exact Exists/Open/Get/Put trace, pointer identity", depthAll, len(ops), depthBFS)
 	var states, transitions int64
 	var mu sync.Mutex
 	fixpoint := true
 	for _, cfg := range cfgs {
 		cfg := cfg
+		ops := c16Ops(cfg)
 		// (1) all histories, no merging
 		total := int64(0)
 		for d := 1; d <= depthAll; d++ {
@@ -725,7 +737,7 @@ func init() {
 			}
 		}
 		byName := map[string]c16Op{}
-		for _, o := range c16Ops() {
+		for _, o := range c16Ops(cfg) {
 			byName[o.String()] = o
 		}
 		var hist []c16Op
